@@ -613,7 +613,14 @@ class Symbolic(
     if skip_notification is None:
       skip_notification = not flags.is_change_notification_enabled()
     if not skip_notification:
-      self._notify_field_updates(updates, notify_parents=notify_parents)
+      try:
+        self._notify_field_updates(updates, notify_parents=notify_parents)
+      except Exception:
+        # A change handler raised: the containers that were not notified yet
+        # still need their structural bookkeeping (e.g. list indices).
+        for target in {id(u.target): u.target for u in updates}.values():
+          target._sync_children()  # pylint: disable=protected-access
+        raise
     else:
       # Structural bookkeeping does not depend on change notification.
       for target in {id(u.target): u.target for u in updates}.values():
